@@ -136,6 +136,9 @@ def run(ctx):
     uf = P.call_sites(U, 'Storage::filter_block')
     if uf:
         ctx.ob('C03.r4', U.name, 'set_scripts indexes only the genesis block read back from the store', udu.from_call(uf[0][1].args[1], 'Storage::get_genesis_block'), at=uf[0][1].span)
+    # the script set a batch is matched against (shared with C09.r6): a script registered inside the batch must not be skipped
+    from rules.C09 import batch_script_set
+    batch_script_set(ctx, 'C03.r5')
     # reviewed reference of the storage functions' durable writes (engine/census.py)
     from rules import census_fns
     census_fns.run(ctx, 'C03')
